@@ -221,8 +221,8 @@ def _g_idle_incomplete(w):
     """Recovery actor: enabled only when nothing is queued/running and the submission is incomplete."""
     if w.sim.active_batches():
         return False
-    if any(v.status == "ready" and v.kind in ("login", "node") and v.nsync > 0 for v in w.vprocs):
-        # a JADE process of the submission is still running
+    if any(v.status == "ready" and v.pending is not None and v.pending.kind != "start" for v in w.vprocs):
+        # a JADE process of the submission (or another user command) is still running
         return False
     login = w.vprocs[0]
     if login.status == "ready":
@@ -239,12 +239,18 @@ def _g_submitted(w):
     )
 
 
+@guard("submitted_incomplete")
+def _g_submitted_incomplete(w):
+    d = _cluster_state(w)
+    return d is not None and not d.get("is_complete") and os.path.exists(w.rootp + "job_status.json")
+
+
 @guard("complete")
 def _g_complete(w):
     d = _cluster_state(w)
     if d is None or not d.get("is_complete") or d.get("submitter") is not None:
         return False
-    return not any(v.status == "ready" and v.nsync > 0 for v in w.vprocs if v.kind != "user")
+    return not any(v.status == "ready" and v.pending is not None and v.pending.kind != "start" for v in w.vprocs)
 
 
 @guard("always")
